@@ -3171,7 +3171,7 @@ class RomanNumeral(Harmony):
         except KeyError:
             loc_k = self.primary_degree
             glob_k = step.lower() if self.secondary_degree.islower() else step.upper()
-            root = step + INT_TO_ALT[alter]
+            glob_k = glob_k + INT_TO_ALT[alter]
             root = process_local_key(loc_k, glob_k)
 
         return root
